@@ -64,7 +64,7 @@ def gen_base(rng, tier):
             n = len(sc.outputs[op[1].strip()].encode())
             if n < 4 or i + 1 >= len(sc.ops):
                 continue
-            op = ("abandon", op[1], min(op[2], n - 1))
+            op = ("abandon", op[1], min(op[2], n - 1), *op[3:])
         fixed.append(op)
     sc.ops = fixed
     if sc.echo_junk and any(op[0] == "send_interactive" for op in sc.ops):
@@ -192,7 +192,7 @@ def run(tier, seed):
             # a long unread banner in front of the first get_prompt (library transports log in outside the channel)
             base.depth = rng.choice([100, 200])
             base.banner = gen_banner(rng, base.depth)
-            base.ops = [("get_prompt",)] + [op for op in base.ops if op[0] not in ("send_interactive", "abandon")][:2]
+            base.ops = [("get_prompt",)] + [op for op in base.ops if op[0] not in ("send_interactive", "abandon", "reopen")][:2]
             mode = "banner"
         # reference: undecorated, whole reads
         ref = copy.deepcopy(base)
